@@ -79,8 +79,10 @@ def check_key_pubkey(rep, prog):
                 attached.append(e[2])
                 cur = '(%s | %s)' % (cur, e[2])
         vals = sorted(set(expand_bound(s, v) for v in attached))
-        SUBKEY_TWINS = tuple(t % me for t in ('%s.subkeys.items()[*]_1.pubkey', '%s.subkeys.values()[*].pubkey', '%s._children.items()[*]_1.pubkey',
-                                             '%s._children.values()[*].pubkey'))
+        SUBKEY_TWINS = tuple(t.replace('%s', me) for t in (
+            '%s.subkeys.items()[*]_1.pubkey', '%s.subkeys.values()[*].pubkey', '%s._children.items()[*]_1.pubkey', '%s._children.values()[*].pubkey',
+            '%s.subkeys[%s.subkeys[*]].pubkey', '%s.subkeys[%s.subkeys.keys()[*]].pubkey', '%s._children[%s._children[*]].pubkey',
+            '%s._children[%s._children.keys()[*]].pubkey', '%s.subkeys[%s.subkeys.items()[*]_0].pubkey'))
         vals = ['<subkey>.pubkey' if v in SUBKEY_TWINS else v for v in vals]
         allowed = {'<subkey>.pubkey', 'copy.copy(%s._uids[*])' % me, 'copy.copy(%s._signatures[*])' % me}
         rep.check(bool(vals) and set(vals) <= allowed, 'C07.2', 'PGPKey.pubkey', 'attached: %s' % vals,
@@ -303,7 +305,7 @@ def check_export(rep, prog):
             if t == 'isinstance(%s._key,Private)' % m.params[0]:
                 return _b
             return None
-        for s_ in Interp(prog, Scenario(inline=noinline, oracle=oracle)).run(m):
+        for s_ in Interp(prog, Scenario(inline=noinline, oracle=oracle, inline_props={'is_public'})).run(m):
             r = render(s_.ret)
             folded = fold_str(r)
             if folded is None:
